@@ -260,7 +260,7 @@ func C02(tier string) int {
 		Opts:     RunOpts{Pkg: h.Pkg, Inits: []string{"pkg/bmnumbers", "pkg/procbuilder", "pkg/bondmachine"}, Post: c02bPost(scases), TimeoutMs: 60000},
 		Assumptions: []string{
 			"part (a) of the design only: WIRING. For each bond graph of the family (built through the real Add_input/Add_output/Add_processor/Add_bond), (1) the generated top-level netlist, with processors as black boxes whose output pins are free variables, connects every bonded consumer data/valid pin and every external output to exactly its producer, and every bonded producer's received line equals the AND of the received lines of exactly the inputs bonded to it, for all pin values; (2) the simulator's data-movement phases (two VM.Step with processors running 'j 0') implement the same relation for all port values",
-			"part (b), bounded and for concrete programs: for each source of a seeded family (the one-CP family of C05 with its entry label first: labels, jumps, macros, mov with literals, inc/dec/add/clr/cpy/nop, i2r/r2o; register sizes 8/16) the real assembler is run natively and the real generators write the Verilog of the emitted machine - top level, arch wrapper, processor and the ROM WITH ITS GENERATED CONTENTS; /verif/vlog unrolls it from one reset cycle for T = 2*lines+4 cycles and z3 decides that after every cycle every external output and the pc, and at the horizon every register, equal the simulator's after the same number of ticks, FOR ALL values of the external inputs (constant, valid). Registers the generated reset does not assign (the output registers) are taken to power up at 0, the FPGA convention and the simulator's initial value. Handshaked I/O, several processors, input streams and stalls are outside part (b) (handshakes: C04 on both back-ends)",
+			"part (b), bounded and for concrete programs: for each source of a seeded family (the one-CP family of C05 with its entry label first: labels, jumps, macros, mov with literals, inc/dec/add/clr/cpy/nop, i2r/r2o; register sizes 8/16) the real assembler is run natively and the real generators write the Verilog of the emitted machine - top level, arch wrapper, processor and the ROM WITH ITS GENERATED CONTENTS; /verif/vlog unrolls it from one reset cycle for T = 2*lines+4 cycles and z3 decides that after every cycle every external output and the pc, and at the horizon every register, equal the simulator's after the same number of ticks, FOR ALL values of the external inputs (constant, valid). Every source is also generated with the onlydestregs hardware optimisation from the requirement tree the assembler exports (the tools' own flow: basm DumpRequirements -> bmreqs.Import -> ReqRoot). Registers the generated reset does not assign (the output registers) are taken to power up at 0, the FPGA convention and the simulator's initial value. Handshaked I/O, several processors, input streams and stalls are outside part (b) (handshakes: C04 on both back-ends)",
 			"unbonded endpoints are not constrained; shared objects, etherbond/udpbond modules and board top files are outside; 8-bit machines; graphs are sampled from the stated family with VERIF_SEED",
 		},
 		Bounds: map[string]interface{}{"graphs": len(gs), "processors_max": 3, "domains_N:M": "1:1,2:1,1:2", "history_length_max": map[string]int{"quick": 4, "thorough": 5}},
